@@ -210,3 +210,24 @@ def def_rhs(n: Node, name: str):
             if isinstance(s, ast.NamedExpr) and s.target.id == name:
                 return s.value
     return None
+
+
+def defs_reachable(g: CFG, start_edges, name: str, model=EXPLICIT) -> list[Node]:
+    """CFG nodes that (re)define local `name` and are reachable from the given (node, edge-kind) starts."""
+    seen = set()
+    stack = []
+    for sn, ek in start_edges:
+        for t, k in g.succs(sn, model):
+            if ek is None or k == ek:
+                stack.append(t)
+    out = []
+    while stack:
+        n = stack.pop()
+        if n.id in seen:
+            continue
+        seen.add(n.id)
+        if name in node_defs(n):
+            out.append(n)
+        for t, _k in g.succs(n, model):
+            stack.append(t)
+    return out
